@@ -16,6 +16,11 @@ def gen_cases(rng, tier):
     return cases
 
 
+def text_body(text):
+    """the report text without its verdict line, as a multiset of lines (result order is free)"""
+    return sorted(l for l in (text or "").splitlines() if not l.startswith("Conforms:"))
+
+
 def metamorphic(cases, obs):
     bad = []
     for k in range(0, len(cases), len(OPTS)):
@@ -25,10 +30,13 @@ def metamorphic(cases, obs):
                 bad.append((k, "outcome kind differs between severity options: %r" % [o[0:2] for o in grp]))
             continue
         base = EC.keys(grp[0])
+        base_text = text_body(grp[0][3])
         verdicts = []
         for j, o in enumerate(grp):
             if EC.keys(o) != base:
                 bad.append((k + j, "allow_infos/allow_warnings changed the reported results"))
+            elif text_body(o[3]) != base_text:
+                bad.append((k + j, "allow_infos/allow_warnings changed the results listed in the report text (beyond the Conforms line)"))
             waived = set()
             if cases[k + j]["opts"].get("allow_infos"):
                 waived |= {SH.Info}
